@@ -11,6 +11,7 @@ import (
 	"go.lsp.dev/uri"
 
 	"github.com/juev/hledger-lsp/internal/analyzer"
+	"github.com/juev/hledger-lsp/internal/ast"
 	"github.com/juev/hledger-lsp/internal/cli"
 	"github.com/juev/hledger-lsp/internal/formatter"
 	"github.com/juev/hledger-lsp/internal/include"
@@ -572,6 +573,29 @@ func (s *Server) getWorkspaceResolved(docURI protocol.DocumentURI) *include.Reso
 	current := *resolved
 	current.Primary = journal
 	return &current
+}
+
+// withDocument returns resolved extended by the document itself when the
+// document is not part of the tree (a file the root journal does not include,
+// or a buffer without a file): what is offered for "the document and its
+// workspace" must not lose the document.
+func (s *Server) withDocument(resolved *include.ResolvedJournal, docURI protocol.DocumentURI, content string) *include.ResolvedJournal {
+	path := uriToPath(docURI)
+	if path == "" {
+		path = string(docURI)
+	}
+	if _, included := resolved.Files[path]; included || resolved.PrimaryPath == path {
+		return resolved
+	}
+	journal, _ := parser.Parse(content)
+	extended := *resolved
+	extended.Files = make(map[string]*ast.Journal, len(resolved.Files)+1)
+	for p, j := range resolved.Files {
+		extended.Files[p] = j
+	}
+	extended.Files[path] = journal
+	extended.FileOrder = append(append([]string(nil), resolved.FileOrder...), path)
+	return &extended
 }
 
 func (s *Server) RootURI() string {
